@@ -160,6 +160,11 @@ def g_node(node: Dict[str, Any]) -> Dict[str, Any]:
         out = {"processor": f"rename:{k1}:{k2}"}
     elif kind == "Delete":
         out = {"processor": f"delete:{k1}"}
+    elif kind == "CtxBind":
+        out = {"processor": "VCtxBump", "parameters": {"context_key": k2}}
+        if cfg:
+            out["parameters"].update(cfg)
+        return out
     elif kind == "Template":
         out = {"processor": f'template:"{TEMPLATE_PREFIX}{{{k1}}}":{k2}'}
     elif kind in ("SweepSrc", "SweepSrcCtx"):
